@@ -290,6 +290,12 @@ def floor(ctx):
         dec.append(gen.rand_selfies(rnd, rnd.choice([6, 15, 40]), dot=0.08, nop=0.08))
         dec.append(gen.ring_heavy(rnd, rnd.choice([10, 40, 90])))
     dec.append('[C][C][C][Ring1][Ring1]' * 12 + '[N][Branch1][C][F][=O]')
+    # bond tokens in front of two-digit ring labels (=%11, #%12, /%13), atoms and branches after them, several fragments
+    base10 = '[C][C][C][Ring1][Ring1]' * 10
+    dec.append(base10 + '[S][C][C][=Ring1][Ring1][C][C][=Ring1][Ring1][S][C][C][#Ring1][Ring1][C][Branch1][C][Cl][O]')
+    dec.append(base10 + '[C][/C][=C][-/Ring1][Ring2][Br].[C][O]')
+    dec.append('[C][O].' + base10 + '[P][C][C][=Ring1][Ring1][Branch1][C][F][N].[S][C][C][=Ring1][Ring1]')
+    dec.append(base10 + '[Si][C][C][C][=Ring1][Ring2][=Ring1][Ring1][Cl]')
     jobs = [('dec', 'default', ch) for ch in chunks(dec, 24)]
     cor = enc.corpus()
     from harness import encfloor
